@@ -298,6 +298,29 @@ func checkConnectives(r *Run, prog *Program, a *Anchors, pfx string) {
 					if ev.Callee != fn && !delegates[ev.Callee] {
 						argProblems = append(argProblems, fmt.Sprintf("operand %s is evaluated through %s, not through the dispatcher", f, ev.Callee.Name()))
 					}
+					if delegates[ev.Callee] {
+						// the operand is evaluated by the function the dispatcher delegates to: with exactly the context the
+						// dispatcher itself handed it (no counter, flag or accumulated state that differs from the top level)
+						var entry *Event
+						for _, e0 := range sm.Events() {
+							e0 := e0
+							if e0.Inlined && e0.Callee == ev.Callee && entry == nil {
+								entry = &e0
+							}
+						}
+						if entry == nil || len(entry.Args) != len(ev.Args) {
+							argProblems = append(argProblems, "operand "+f+": the delegate's entry cannot be compared")
+						} else {
+							for i := range ev.Args {
+								if _, isChild := childField(ev.Args[i], pNode, ptrT); isChild {
+									continue
+								}
+								if ev.Args[i].Key() != entry.Args[i].Key() {
+									argProblems = append(argProblems, fmt.Sprintf("operand %s is evaluated in a different context than the node itself (argument %d is %s, the dispatcher passed %s): its outcome would not be that of the operand on its own", f, i, shortKey(ev.Args[i]), shortKey(entry.Args[i])))
+								}
+							}
+						}
+					}
 					if !argsCarry(ev.Args, pDatum) {
 						argProblems = append(argProblems, "operand "+f+" is not evaluated against the same datum")
 					}
